@@ -662,7 +662,41 @@ def r14(ctx):
         raise AnalysisBroken('C19.R14: the walk over m_messagesByName in MessageMap::dump was not found')
 
 
+def r15(ctx):
+    import rules.common as _c
+    ctx.rule('C19.R15', 'the second argument of substr is a length: in the sources that write and read definitions a position found by '
+             'a search is handed to substr as its length only when the piece starts at 0 (substr(0, pos)); for a piece that '
+             'starts further right the length is a difference (substr(last, pos - last)) - with the position as length, '
+             'dumpString copies too much from the second quote on and the dumped line cannot be split', minimum=8)
+    fb = ctx.fb
+    n = 0
+    seen = set()
+    for fn in fb.functions:
+        if not fn.relfile.startswith(('src/lib/ebus/data.', 'src/lib/ebus/message.', 'src/lib/ebus/filereader.', 'src/lib/ebus/datatype.')) or \
+                not fn.nodes or (fn.name, fn.sig) in seen:
+            continue
+        seen.add((fn.name, fn.sig))
+        finds = set(d for nid, d, rhs, op, lhs in fn.assignments() if rhs is not None and d and any(
+            (fn.nodes[y].get('callee') or '').split('::')[-1].startswith(('find', 'rfind')) for y in fn.walk(rhs) if fn.nodes[y]['k'] == 'CXXMemberCallExpr'))
+        for c in fn.calls('substr'):
+            v = fn.nodes[c]
+            a = v.get('args', [])
+            if len(a) < 2 or fn.nodes[fn.strip(a[1], casts=True)].get('k') == 'CXXDefaultArgExpr':
+                continue
+            a1 = fn.nodes[fn.strip(a[1], casts=True)]
+            if a1.get('k') != 'DeclRefExpr' or a1.get('decl') not in finds:
+                continue
+            n += 1
+            ctx.touch(fn)
+            ok = fn.val(a[0]) == 0
+            ctx.ob('C19.R15', fn, c, ok, 'substr with a searched position as length in %s' % fn.name.split('::', 1)[-1],
+                   'the piece starts at 0: %s (%s)' % (ok, fn.key(c)[:60]))
+    if n < 8:
+        raise AnalysisBroken('C19.R15: only %d substr calls with a searched position as length found' % n)
+
+
 def run(ctx):
+    r15(ctx)
     r14(ctx)
     r13(ctx)
     r12(ctx)
